@@ -19,3 +19,9 @@ def run(chk):
     core_rules.security_setup_rules(chk, "C02")  # the value / position histories hold exactly what update writes (float columns)
     from .c17 import strategy_transact
     strategy_transact(chk)
+    # the attribution sums position x price change over every security of the tree: the strategy's position rows are the per-name sums of the securities' rows
+    from .algo_equiv import check_equiv
+    from .c18 import REFS as REPORT_REFS
+    for mod, cls, name, src, what in REPORT_REFS:
+        if (cls, name) == ("StrategyBase", "positions"):
+            check_equiv(chk, "C18.R1", mod, cls, name, src, "report-formula", "%s.%s: %s" % (cls, name, what), no_inline=("update", "get_transactions"), limit=14, ignore_refresh=True)
